@@ -3,7 +3,7 @@ harness generator, the trusted-base items specific to the property."""
 
 TRUSTED_COMMON = [
     "Lean 4.33 kernel; axioms allowed: propext, Classical.choice, Quot.sound (audited with #print axioms on every property theorem on every run)",
-    "translate/t2.py (Rust integer-function subset -> lean/Matreex/Gen/Core.lean, regenerated from /repo/src on every run)",
+    "translate/t2.py (Rust integer-function subset -> lean/Matreex/Gen/Core.lean) and, run from it, t3.py (swap kernels), t4.py (mutable iterators), t5.py (transpose), t6.py (overwrite), t7.py (PartialEq), t8.py (constructors, reshape), t9.py (elementwise operations), t10.py (products) -> lean/Matreex/Gen/*.lean, all regenerated from /repo/src on every run; anything outside a translator's statement language is reported as a broken obligation, never guessed",
     "harness/ (Rust) and lean/Main.lean + lean/Driver/ (protocol printers on both sides); the Lean compiler/runtime for the driver only",
     "64-bit usize/isize; rustc and std semantics of the primitives named in DESIGN.md section 5 (modelled, validated by correspondence)",
 ]
@@ -19,7 +19,7 @@ PROPS = {
         "module": "Matreex.Props.C10", "harness": "C10", "extra_modules": ["Matreex.Props.SpecLaws"],
         "technique": "Lean 4 theorems (window lemma for the contiguous swap, loop invariant for the strided swap, lift to the logical view for both orders) + correspondence on all shapes/index pairs/element sizes",
         "trusted": ["ptr::swap_nonoverlapping modelled with its precondition (ranges in the buffer, disjoint unless zero bytes); ptr::swap as UB outside the buffer (Model/Swap.lean, Model/Mem.lean)",
-                    "the call structure of swap/swap_rows/swap_cols is hand-modelled and tied by correspondence; for zero-sized elements with extents near usize::MAX only the outcome (Ok / IndexOutOfBounds / panic) is compared"],
+                    "the two vector-swap kernels are regenerated from src/swap.rs (T3) and proved equal to the model functions, faults included (swap_kernels_are_the_source); which kernel swap_rows / swap_cols call per order is a re-extracted table (T1); the element swap `swap(i, j)` is hand-modelled and tied by correspondence; for zero-sized elements with extents near usize::MAX only the outcome (Ok / IndexOutOfBounds / panic) is compared"],
         "assumptions": ["Coh and size <= usize::MAX (C01); index arguments are usize values"],
     },
     "C13": {
@@ -31,7 +31,7 @@ PROPS = {
         "module": "Matreex.Props.C05", "harness": "C05", "extra_modules": ["Matreex.Props.SpecLaws"],
         "technique": "Lean 4 proof of the cycle-following in-place permutation for every injective self-map (two loop invariants), instantiated with the regenerated index functions (T2); induction over compositions; correspondence on all shapes up to 12x12",
         "trusted": ["ptr::swap modelled as UB outside the buffer, visited.get_unchecked_mut as UB outside the bitmap (Model/Mem.lean, Model/Transpose.lean)",
-                    "the loop structure of transpose / switch_order / set_order is hand-modelled and tied by correspondence; AxisIndex::swap (a mutating method) is modelled by hand",
+                    "Matrix::transpose is regenerated from src/lib.rs (T5) and proved equal to the model function for every matrix, faults included (transpose_is_the_source); the only thing T5 adds to the Rust text is the fuel of the inner loop; switch_order / set_order (three-line wrappers) are hand-modelled and tied by correspondence",
                     "zero-sized element types are represented by Subsingleton types"],
         "assumptions": ["Coh and size <= usize::MAX for the matrix operated on (C01)"],
     },
@@ -48,13 +48,13 @@ PROPS = {
 PROPS["C14"] = {
     "module": "Matreex.Props.C14", "harness": "C14",
     "technique": "Lean 4 loop-invariant proofs for both branches of overwrite (unchecked sub-slices; strided zip), lifted to the logical view for the four order combinations; exhaustive correspondence over shape pairs with clone-marking tokens",
-    "trusted": ["get_unchecked(range) modelled as UB outside the vector, clone_from_slice as panic on a length mismatch, skip/step_by/zip as position arithmetic with step_by(0) = panic (Model/Overwrite.lean)",
+    "trusted": ["get_unchecked(range) modelled as UB outside the vector, clone_from_slice as panic on a length mismatch, skip/step_by/zip as position arithmetic with step_by(0) = panic (Model/Overwrite.lean): T6 maps this slice / iterator vocabulary by name to those primitives; branch condition, extents, loop bounds, offsets, ranges and skip / step_by arguments are regenerated from src/lib.rs and proved equal to the model (overwrite_is_the_source)",
                 "Clone::clone is an effect-free function in these theorems (fault schedules: C02)"],
     "assumptions": ["Coh for both matrices (C01)"],
 }
 
 PROPS["C09"] = {
-    "module": "Matreex.Props.C09", "harness": "C09",
+    "module": "Matreex.Props.C09", "harness": "C09", "extra_modules": ["Matreex.Lemmas.BridgeT8Props"],
     "technique": "Lean 4 theorems over a state-returning model (post-state also on failure) for reshape/resize and every fallible in-place operation + T1 delegation table for += / -= + correspondence on exhaustive single calls and random histories",
     "trusted": ["Vec::resize_with / truncate as take/append on the memory-order sequence (effect-free Default here; unwinding behaviour is C02's subject)",
                 "the models of swap*/elementwise_assign are those of C10/C12"],
@@ -62,7 +62,7 @@ PROPS["C09"] = {
 }
 
 PROPS["C12"] = {
-    "module": "Matreex.Props.C12", "harness": "C12",
+    "module": "Matreex.Props.C12", "harness": "C12", "extra_modules": ["Matreex.Props.C12Source"],
     "technique": "Lean 4 theorems about the regenerated conformability predicate and the same-order/cross-order data paths (cross-order get_unchecked in bounds via the remap lemma) + T1 tables of the named methods and operator delegation + correspondence with symbolic token terms",
     "trusted": ["iter().zip / enumerate / collect modelled as positionwise maps; get_unchecked as UB outside the vector",
                 "closures are effect-free functions in the theorems (exactly-once is the shape of the map; the harness counts real calls)",
@@ -106,7 +106,7 @@ PROPS["C03"] = {
     "module": "Matreex.Props.C03", "harness": "C03",
     "technique": "Lean 4 refinement proof: the address-level iterator machines (outer + all live inner iterators, any finite call sequence) refine a deque-of-deques of positions; abstract-level no-duplicates / exactly-once theorems; address injectivity; correspondence incl. every pointer value formed (hooks)",
     "trusted": ["NonNull::add/sub modelled as UB outside the allocation [base, base+len*size], NonZero::new_unchecked(0) and NonNull::new_unchecked(null) as UB, as_mut as requiring a live aligned element (Model/IterMut.lean)",
-                "the machines are hand-modelled from src/iter/iter_mut.rs and tied by correspondence on yielded addresses, len() and every lower/upper value recorded by the verif-hooks recorder",
+                "the 15 methods of the two iterators are regenerated from src/iter/iter_mut.rs (T4; pointer vocabulary: Model/PtrPrims.lean) and proved equal to the model machines on every state of the refinement invariants, faults included (iterators_are_the_source, constructors_are_the_source; outside the model: the buffer pointer of a non-empty Vec is not null); additionally tied by correspondence on yielded addresses, len() and every lower/upper value recorded by the verif-hooks recorder",
                 "Vec guarantees: base + len*size does not wrap, len <= usize::MAX (CfgOk)"],
     "assumptions": ["Coh (C01)"],
 }
